@@ -52,6 +52,7 @@ type c20Variant struct {
 	// shapes that a defective or lenient implementation may let through), then "allow" (right credentials)
 	TCP            bool `json:"tcp"`              // also sent through the real listener
 	MayPass        bool `json:"may_pass"`         // lenient-right shape: being let through is acceptable
+	PathVariants   bool `json:"path_variants"`    // class representative: also sent to the path variants of every route
 	PrimeSameRoute bool `json:"prime_same_route"` // phase "after": also preceded by the right credentials on the same route
 }
 
@@ -254,6 +255,7 @@ type c20Record struct {
 	Reg       bool   `json:"registered_method"`
 	Variant   string `json:"variant"`
 	Combo     string `json:"combo"`
+	PathVar   string `json:"path_variant,omitempty"`
 	Status    int    `json:"status"`
 	Body      string `json:"body"` // first 48 bytes of the (decoded) body
 	WWWAuth   string `json:"www_auth,omitempty"`
@@ -600,6 +602,7 @@ func TestVerifC20(t *testing.T) {
 
 	out.emit(map[string]any{"t": "header", "config": cfg.Name, "mode": cfg.Mode, "cors": cfg.CorsOrigin,
 		"routes": routes, "default_mux_patterns": c20DefaultMuxPatterns(), "http_addr": addr,
+		"not_found_handler": fmt.Sprintf("%T", router.NotFoundHandler), "method_not_allowed_handler": fmt.Sprintf("%T", router.MethodNotAllowedHandler),
 		"listening_ports": c20ListeningPorts(), "http_port": httpPort, "db_port": dbPort,
 		"ready_ms": time.Since(mainStart).Milliseconds()})
 	out.flush()
@@ -824,7 +827,7 @@ func TestVerifC20(t *testing.T) {
 			if cfg.Only != nil && cfg.Only.Via != "" && cfg.Only.Via != via {
 				continue
 			}
-			if cfg.Only != nil && cfg.Only.Via == "after" {
+			if cfg.Only != nil && (cfg.Only.Via == "after" || cfg.Only.Via == "pathvar") {
 				continue
 			}
 			if phase != "allow" && letThrough > 400 {
@@ -877,6 +880,83 @@ func TestVerifC20(t *testing.T) {
 		"handler_entries": atomic.LoadInt64(&c20HandlerEntries), "registry_calls": atomic.LoadInt64(&c20RegistryCalls),
 		"at_ms": denyEnd.Milliseconds()})
 	out.flush()
+
+	// path variants of every walked route (trailing / doubled slash, case, percent-encoding, dot segments, appended
+	// segment) and a completely unknown path, for every method of the route and OPTIONS, with the class
+	// representatives of the Authorization alphabet: whatever answers them (a 301 of the path cleaner, a
+	// NotFoundHandler / MethodNotAllowedHandler, a lenient matcher) must not reach a handler without the credentials
+	if cfg.Only == nil || cfg.Only.Via == "pathvar" {
+		none, pre := -1, -1
+		for i, cb := range cfg.Combos {
+			if len(cb.Headers) == 0 {
+				none = i
+			}
+			if cb.ID == "Origin=http://evil & Access-Control-Request-Method=GET" {
+				pre = i
+			}
+		}
+		type pv struct{ kind, path string }
+		variantsOf := func(u string) []pv {
+			path, query := u, ""
+			if i := strings.IndexByte(u, '?'); i >= 0 {
+				path, query = u[:i], u[i:]
+			}
+			out := []pv{{"trailing_slash", path + "/"}, {"two_trailing_slashes", path + "//"}, {"leading_double_slash", "/" + path},
+				{"upper_case", strings.ToUpper(path)}, {"appended_segment", strings.TrimSuffix(path, "/") + "/extra"},
+				{"dot_segment", "/." + path}, {"dotdot_detour", "/zz/.." + path}, {"trailing_dot_segment", strings.TrimSuffix(path, "/") + "/."},
+				{"encoded_dot_segment", "/%2e" + path}, {"trailing_encoded_slash", path + "%2F"}, {"semicolon_suffix", path + ";x=1"},
+				{"unknown_path", "/zz-verif-unknown-path"}, {"unknown_path_trailing_slash", "/zz-verif-unknown-path/"}}
+			if i := strings.IndexByte(path[1:], '/'); i >= 0 {
+				out = append(out, pv{"inner_double_slash", path[:i+1] + "/" + path[i+1:]}, pv{"inner_encoded_slash", path[:i+1] + "%2F" + path[i+2:]})
+			}
+			for i := range out {
+				out[i].path += query
+			}
+			return out
+		}
+		for _, r := range routes {
+			if !r.HasHandle || r.URL == "" || r.Template == "" {
+				continue
+			}
+			meths := append(append([]string{}, r.Methods...), "OPTIONS")
+			if len(r.Methods) == 0 {
+				meths = []string{"GET", "POST", "OPTIONS"}
+			}
+			for _, pvar := range variantsOf(r.URL) {
+				for _, m := range meths {
+					for _, v := range cfg.Variants {
+						if !v.PathVariants {
+							continue
+						}
+						for _, ci := range []int{none, pre} {
+							if ci < 0 || (ci == pre && m != "OPTIONS" && v.ID != "absent") {
+								continue
+							}
+							if o := cfg.Only; o != nil && !(pvar.path == o.Path && m == o.Method && v.ID == o.VariantID && cfg.Combos[ci].ID == o.Combo) {
+								continue
+							}
+							if letThrough > 400 {
+								skipped++
+								continue
+							}
+							rec := send(reqSpec{r, pvar.path, m, false, v, ci}, "inproc", "pathvar")
+							rec.PathVar = pvar.kind
+							if rec.DHandler > 0 {
+								letThrough++
+							}
+							out.emit(rec)
+							if pvar.kind == "trailing_slash" && v.Absent && ci == none && cfg.Only == nil {
+								t := send(reqSpec{r, pvar.path, m, false, v, ci}, "tcp", "pathvar")
+								t.PathVar = pvar.kind
+								out.emit(t)
+							}
+						}
+					}
+				}
+			}
+		}
+		out.flush()
+	}
 
 	// unregistered well-known paths through the real listener, without credentials
 	if cfg.Only == nil {
